@@ -94,6 +94,48 @@ func isMap(t types.Type) bool {
 	return ok
 }
 
+// trackableElem: slice elements worth tracking for races (pointers, interfaces, structs, ...), not
+// bytes/numbers/strings (byte-level instrumentation of the codecs would cost orders of magnitude).
+func trackableElem(t types.Type) bool {
+	if t == nil {
+		return false
+	}
+	sl, ok := t.Underlying().(*types.Slice)
+	if !ok {
+		return false
+	}
+	_, basic := sl.Elem().Underlying().(*types.Basic)
+	return !basic
+}
+
+// pureExpr: identifiers, selectors, derefs, parens and our own R/W wrappers - no calls with effects.
+func pureExpr(e ast.Expr) bool {
+	switch v := e.(type) {
+	case *ast.Ident:
+		return true
+	case *ast.SelectorExpr:
+		return pureExpr(v.X)
+	case *ast.ParenExpr:
+		return pureExpr(v.X)
+	case *ast.StarExpr:
+		return pureExpr(v.X)
+	case *ast.UnaryExpr:
+		return v.Op == token.AND && pureExpr(v.X)
+	case *ast.IndexExpr:
+		return pureExpr(v.X) && pureExpr(v.Index)
+	case *ast.BasicLit:
+		return true
+	case *ast.CallExpr:
+		// vsched.R / vsched.W wrappers produced by this rewriter
+		if se, ok := v.Fun.(*ast.SelectorExpr); ok {
+			if id, ok := se.X.(*ast.Ident); ok && id.Name == "vsched" && (se.Sel.Name == "R" || se.Sel.Name == "W") && len(v.Args) == 2 {
+				return pureExpr(v.Args[0])
+			}
+		}
+	}
+	return false
+}
+
 // isSyncType: the field's type comes from sync / sync/atomic (modelled objects, not data).
 func isSyncType(t types.Type) bool {
 	for {
@@ -181,6 +223,7 @@ func (r *rewriter) markWrites(lhs ast.Expr, writes map[ast.Expr]bool) {
 				e = v.X
 				continue
 			}
+			writes[v] = true // a slice element is written
 			return
 		case *ast.SelectorExpr:
 			writes[v] = true
@@ -196,6 +239,9 @@ func (r *rewriter) rewriteFile() {
 	skip := map[ast.Expr]bool{}    // selectors not to wrap (operand of &, handled specially)
 	rangeKind := map[*ast.RangeStmt]string{}
 	atomicArg := map[*ast.UnaryExpr]bool{}
+	trackIdx := map[*ast.IndexExpr]bool{}   // s[i] with s a slice of trackable elements, addressable
+	trackAppend := map[*ast.CallExpr]bool{} // append(s, ...) on such a slice
+	addrOf := map[ast.Expr]bool{}           // operands of & (left alone)
 	// pre-pass: classify contexts on the original tree
 	ast.Inspect(r.file, func(n ast.Node) bool {
 		switch v := n.(type) {
@@ -213,6 +259,8 @@ func (r *rewriter) rewriteFile() {
 					rangeKind[v] = "map"
 				} else if isChan(tv.Type) {
 					rangeKind[v] = "chan"
+				} else if trackableElem(tv.Type) && !isBlank(v.Value) {
+					rangeKind[v] = "slice"
 				}
 			}
 			if v.Tok == token.ASSIGN {
@@ -229,6 +277,13 @@ func (r *rewriter) rewriteFile() {
 					r.markWrites(v.Args[0], writes)
 				}
 			}
+			if id, ok := v.Fun.(*ast.Ident); ok && id.Name == "append" && len(v.Args) >= 1 {
+				if _, isBuiltin := r.info.Uses[id].(*types.Builtin); isBuiltin {
+					if tv, ok := r.info.Types[v.Args[0]]; ok && trackableElem(tv.Type) {
+						trackAppend[v] = true
+					}
+				}
+			}
 			// &x.f handed to a sync/atomic function is an atomic access, not a plain write
 			if se, ok := v.Fun.(*ast.SelectorExpr); ok {
 				if pid, ok := se.X.(*ast.Ident); ok {
@@ -241,8 +296,15 @@ func (r *rewriter) rewriteFile() {
 					}
 				}
 			}
+		case *ast.IndexExpr:
+			if tv, ok := r.info.Types[v.X]; ok && trackableElem(tv.Type) {
+				if etv, ok := r.info.Types[v]; ok && etv.Addressable() {
+					trackIdx[v] = true
+				}
+			}
 		case *ast.UnaryExpr:
 			if v.Op == token.AND {
+				addrOf[v.X] = true
 				x := v.X
 				for {
 					if p, ok := x.(*ast.ParenExpr); ok {
@@ -302,10 +364,22 @@ func (r *rewriter) rewriteFile() {
 					c.Replace(call(vs("Recv"), n.X))
 				}
 			}
+		case *ast.IndexExpr:
+			if trackIdx[n] && !addrOf[n] {
+				c.Replace(r.wrap(n, writes[n], "element "+r.pos(n)))
+			}
 		case *ast.SendStmt:
 			r.usedVS = true
 			c.Replace(&ast.ExprStmt{X: call(vs("Send"), n.Chan, n.Value)})
 		case *ast.CallExpr:
+			if trackAppend[n] && pureExpr(n.Args[0]) {
+				// vsched.Appended(where, s, append(s, ...)): the elements beyond len(s) are writes. The
+				// slice expression is evaluated twice, so only side-effect-free expressions are rewritten.
+				r.usedVS = true
+				inner := &ast.CallExpr{Fun: n.Fun, Args: n.Args, Ellipsis: n.Ellipsis}
+				c.Replace(call(vs("Appended"), strLit("append "+r.pos(n)), n.Args[0], inner))
+				return true
+			}
 			if id, ok := n.Fun.(*ast.Ident); ok && id.Name == "close" && len(n.Args) == 1 {
 				if _, isBuiltin := r.info.Uses[id].(*types.Builtin); isBuiltin {
 					r.usedVS = true
@@ -328,6 +402,8 @@ func (r *rewriter) rewriteFile() {
 				c.Replace(r.rewriteMapRange(n))
 			case "chan":
 				c.Replace(r.rewriteChanRange(n))
+			case "slice":
+				c.Replace(r.rewriteSliceRange(n))
 			default:
 				n.Body.List = append([]ast.Stmt{&ast.ExprStmt{X: call(vs("Tick"))}}, n.Body.List...)
 			}
@@ -484,6 +560,34 @@ func (r *rewriter) rewriteMapRange(n *ast.RangeStmt) ast.Stmt {
 	loop := &ast.RangeStmt{Key: ast.NewIdent("_"), Value: ast.NewIdent(k), Tok: token.DEFINE, X: call(vs("MapKeys"), ast.NewIdent(m)), Body: &ast.BlockStmt{List: body}}
 	return &ast.BlockStmt{List: []ast.Stmt{
 		&ast.AssignStmt{Lhs: []ast.Expr{ast.NewIdent(m)}, Tok: token.DEFINE, Rhs: []ast.Expr{n.X}},
+		loop,
+	}}
+}
+
+// rewriteSliceRange: for k, v := range s  ->  { __s := s; for k := range __s { v := *vsched.R(&__s[k]); ... } }
+func (r *rewriter) rewriteSliceRange(n *ast.RangeStmt) ast.Stmt {
+	sv := r.tmp("s")
+	key := n.Key
+	tok := n.Tok
+	var body []ast.Stmt
+	body = append(body, &ast.ExprStmt{X: call(vs("Tick"))})
+	loopKey := key
+	if isBlank(key) {
+		loopKey = ast.NewIdent(r.tmp("i"))
+	}
+	keyTok := tok
+	if isBlank(key) {
+		keyTok = token.DEFINE
+	}
+	elem := &ast.StarExpr{X: call(vs("R"), &ast.UnaryExpr{Op: token.AND, X: &ast.IndexExpr{X: ast.NewIdent(sv), Index: loopKey}}, strLit("element "+r.pos(n)))}
+	body = append(body, &ast.AssignStmt{Lhs: []ast.Expr{n.Value}, Tok: tok, Rhs: []ast.Expr{elem}})
+	if tok == token.DEFINE {
+		body = append(body, &ast.AssignStmt{Lhs: []ast.Expr{ast.NewIdent("_")}, Tok: token.ASSIGN, Rhs: []ast.Expr{n.Value}})
+	}
+	body = append(body, n.Body.List...)
+	loop := &ast.RangeStmt{Key: loopKey, Tok: keyTok, X: ast.NewIdent(sv), Body: &ast.BlockStmt{List: body}}
+	return &ast.BlockStmt{List: []ast.Stmt{
+		&ast.AssignStmt{Lhs: []ast.Expr{ast.NewIdent(sv)}, Tok: token.DEFINE, Rhs: []ast.Expr{n.X}},
 		loop,
 	}}
 }
